@@ -428,6 +428,21 @@ def nodata_params(prog, f, pubname='nodata_values'):
                     par = par.parent
                 if not mine:
                     continue
+                # dispatch through a backend table: mapper(x)(args) calls each backend's function with these arguments
+                try:
+                    from .backends import backend_paths as _bp
+                    for pth in _bp(prog, g):
+                        t = pth.func()
+                        if not isinstance(t, Func) or t.module is not m:
+                            continue
+                        bound = dict(zip(t.params, pth.args))
+                        bound.update(pth.keywords)
+                        for p_, a_ in bound.items():
+                            if isinstance(a_, ast.Name) and a_.id in mine and p_ in t.params + t.kwonly and p_ not in nod.get(t.qualname, set()):
+                                nod.setdefault(t.qualname, set()).add(p_)
+                                changed = True
+                except Exception:      # noqa - functions without a dispatch
+                    pass
                 for c in calls(g.node):
                     if c not in g.own_nodes():
                         continue
@@ -965,24 +980,24 @@ def check_strides(prog, rep, m, entry):
             'test first) and record the cursor once per id: ' + why)
 
 
-def _is_category(ka):
+def _is_category(ka, UC='unique_cats'):
     """is this atom the category visited by the loop: the item of enumerate(unique_cats), the unique_cats component of a zip,
     an element of unique_cats itself, or unique_cats[j]"""
     from .sym import App, Rat
     if not isinstance(ka, App):
         return False
     if ka.name in ('read', 'cell?'):
-        return ka.args[0] == 'unique_cats'
+        return ka.args[0] == UC
     if ka.name != 'elem':
         return False
     src = ka.args[0]
     sa = _one_atom(src) if isinstance(src, Rat) else src
     comp = int(ka.args[2].const_value()) if len(ka.args) > 2 and isinstance(ka.args[2], Rat) and ka.args[2].is_const() else None
     if isinstance(sa, App) and sa.name == 'iter:enumerate':
-        return comp == 2 and 'unique_cats' in repr(sa.args[0])
+        return comp == 2 and UC in repr(sa.args[0])
     if isinstance(sa, App) and sa.name == 'iter:zip':
-        return comp is not None and 1 <= comp <= len(sa.args) and 'unique_cats' in repr(sa.args[comp - 1])
-    return comp is None and 'unique_cats' in repr(src)
+        return comp is not None and 1 <= comp <= len(sa.args) and UC in repr(sa.args[comp - 1])
+    return comp is None and UC in repr(src)
 
 
 def _one_atom(r):
@@ -1500,9 +1515,9 @@ def check_crosstab_keys(prog, rep, m, entry):
     rep.add('X-total', f, entry, norm(tot[0]) if tot else 'append under TOTAL_COUNT', f.node.lineno, ok,
             'the percentage base is the number of valid cells of the zone, counted before any category selection')
     # the break vector is the stride routine applied to the sorted valid values and ALL categories
-    bnames = [t.id for s_ in f.own_nodes() if isinstance(s_, ast.Assign) and isinstance(s_.value, ast.Call) and
-              short(s_.value) == '_strides' and len(s_.value.args) == 2 and norm(s_.value.args[1]) == 'unique_cats'
-              for t in s_.targets if isinstance(t, ast.Name)]
+    f0 = m.funcs.get('_single_zone_crosstab_2d')
+    UC = ids_param(prog, f0) or 'unique_cats'               # the vector of ALL categories: what the stride routine is given as ids
+    CI = (nodata_params(prog, f0, 'cat_ids') & set(f0.params)) or {'cat_ids'}     # the caller's selection
     # the per-category counts on the interpreted function: for every category j the count stored under that category
     # is break j minus the running previous break (0 before the first category), whatever the loop looks like
     from .kai import interpret
@@ -1516,7 +1531,7 @@ def check_crosstab_keys(prog, rep, m, entry):
         key = tgt[1] if tgt else None
         ka = _one_atom(key) if isinstance(key, Rat) else None
         v = vals[0] if vals and isinstance(vals[0], Rat) else None
-        okk = _is_category(ka)
+        okk = _is_category(ka, UC)
         okc = False
         if v is not None:
             phis = [(n_, ph, end) for n_, (ph, end) in getattr(L, 'carried', {}).items() if ph in [Rat.atom(a) for a in v.atoms()]]
@@ -1526,7 +1541,7 @@ def check_crosstab_keys(prog, rep, m, entry):
                 ba = _one_atom(brk)
                 # the break of this category: element j of the stride routine applied to (sorted valid values, ALL categories)
                 def strides_of_sorted(x):
-                    return 'call:_strides(' in repr(x) and 'unique_cats' in repr(x) and 'numpy.sort' in repr(x)
+                    return 'call:_strides(' in repr(x) and UC in repr(x) and 'numpy.sort' in repr(x)
                 okb = isinstance(ba, App) and ba.name in ('getitem', 'read', 'cell?') and strides_of_sorted(ba.args[0])
                 if not okb and isinstance(ba, App) and ba.name == 'elem' and len(ba.args) > 2:
                     # zip(unique_cats, breaks): the break paired with the category by position
@@ -1536,7 +1551,7 @@ def check_crosstab_keys(prog, rep, m, entry):
                         strides_of_sorted(za.args[comp - 1]) and isinstance(ka, App) and ka.name == 'elem' and ka.args[0] == ba.args[0] and \
                         ka.args[1] == ba.args[1]
                 okc = okb and end == brk and L.pre.get(n_) == Rat.const(0)
-        sel = any('in(' in repr(g_) and 'cat_ids' in repr(g_) for g_ in guards)
+        sel = any('in(' in repr(g_) and any(c_ in repr(g_) for c_ in CI) for g_ in guards)
         okall = okall and okk and okc and sel
         n += 1
         rep.add('X-key', f, entry, 'count stored per category: %s' % (kshow(v, 90) if v is not None else None), node.lineno, okk and okc and sel,
@@ -1549,8 +1564,11 @@ def check_crosstab_keys(prog, rep, m, entry):
     g = _view(prog, m.funcs.get('_single_zone_crosstab_3d'))
     if g is not None:
         for lp in [x for x in g.node.body if isinstance(x, ast.For)]:
-            ok = isinstance(lp.iter, ast.Call) and norm(lp.iter.func) == 'enumerate' and \
-                norm(lp.iter.args[0]) == 'unique_cats' and isinstance(lp.target, ast.Tuple)
+            g0 = m.funcs.get('_single_zone_crosstab_3d')
+            CI3 = (nodata_params(prog, g0, 'cat_ids') & set(g0.params)) or {'cat_ids'}
+            # enumerated: a parameter that is not the caller's selection (the vector of all categories)
+            ok = isinstance(lp.iter, ast.Call) and norm(lp.iter.func) == 'enumerate' and isinstance(lp.iter.args[0], ast.Name) and \
+                lp.iter.args[0].id in g.params and lp.iter.args[0].id not in CI3 and isinstance(lp.target, ast.Tuple)
             sel = False
             if ok:
                 # every path that stores a result has passed the membership test of this category in cat_ids
@@ -1560,7 +1578,7 @@ def check_crosstab_keys(prog, rep, m, entry):
                 def member(t_, taken):
                     if isinstance(t_, ast.UnaryOp) and isinstance(t_.op, ast.Not):
                         return member(t_.operand, not taken)
-                    if isinstance(t_, ast.Compare) and len(t_.ops) == 1 and norm(t_.left) == catv and norm(t_.comparators[0]) == 'cat_ids':
+                    if isinstance(t_, ast.Compare) and len(t_.ops) == 1 and norm(t_.left) == catv and norm(t_.comparators[0]) in CI3:
                         if isinstance(t_.ops[0], ast.In):
                             return taken
                         if isinstance(t_.ops[0], ast.NotIn):
@@ -1596,7 +1614,8 @@ def check_crosstab_keys(prog, rep, m, entry):
                         'layer j of the zone\'s values belongs to category j')
     cn = _view(prog, m.funcs.get('_crosstab_numpy'))
     if cn is not None:
-        lookups = ('_DEFAULT_STATS[agg]', '_DEFAULT_STATS.get(agg)')
+        AG = (nodata_params(prog, m.funcs.get('_crosstab_numpy'), 'agg') & set(cn.params)) or {'agg'}
+        lookups = tuple(t_ % a_ for a_ in AG for t_ in ('_DEFAULT_STATS[%s]', '_DEFAULT_STATS.get(%s)'))
 
         def feeds(fn, depth):
             """does fn hand the `agg` lookup to the 3-D per-zone routine (directly or through one helper's parameter)?"""
